@@ -120,7 +120,8 @@ func TestC19(t *testing.T) {
 			}
 			for i := range targets {
 				if !held[targets[i].Hash] && i != leave {
-					targets[i].Explore = "bad"
+					// not assignable: failed probe, never probed, or unknown to the explorer
+					targets[i].Explore = rapid.SampledFrom([]string{"bad", "none", "unknown"}).Draw(t, fmt.Sprintf("t%d-unassignable", i))
 				}
 			}
 		} else {
@@ -176,9 +177,20 @@ func TestC19(t *testing.T) {
 		}
 		if mode == "differential" {
 			for e := 0; e < Execs(); e++ {
-				alone := Exec(mk(B))
-				ab := Exec(mk(A, B))
-				ba := Exec(mk(B, A))
+				// two consecutive cycles on one coordinator: what another replica did in the first cycle
+				// must not show in this replica's second cycle either
+				aloneSeq := ExecSeq([]*Scenario{mk(B), mk(B)})
+				abSeq := ExecSeq([]*Scenario{mk(A, B), mk(A, B)})
+				baSeq := ExecSeq([]*Scenario{mk(B, A), mk(B, A)})
+				for cyc := 1; cyc >= 0; cyc-- {
+					if w, g := normalise(&aloneSeq[cyc].Replicas[0]), normalise(&abSeq[cyc].Replicas[1]); aloneSeq[cyc].Panic == "" && abSeq[cyc].Panic == "" && w != g && cyc == 1 {
+						fail([]vkit.Violation{{Key: "C19/depends-on-other-replica/second-cycle/[A,B]", Msg: fmt.Sprintf("second cycle, replica B coordinated alone:\n%s\nwith replica A before it:\n%s", w, g)}}, pair, abSeq[cyc])
+					}
+					if w, g := normalise(&aloneSeq[cyc].Replicas[0]), normalise(&baSeq[cyc].Replicas[0]); aloneSeq[cyc].Panic == "" && baSeq[cyc].Panic == "" && w != g && cyc == 1 {
+						fail([]vkit.Violation{{Key: "C19/depends-on-other-replica/second-cycle/[B,A]", Msg: fmt.Sprintf("second cycle, replica B coordinated alone:\n%s\nwith replica A after it:\n%s", w, g)}}, pair, baSeq[cyc])
+					}
+				}
+				alone, ab, ba := aloneSeq[0], abSeq[0], baSeq[0]
 				if alone.Panic != "" || ab.Panic != "" || ba.Panic != "" || ab.Hung || ba.Hung {
 					fail([]vkit.Violation{{Key: "C19/crash", Msg: fmt.Sprintf("alone %q, [A,B] %q, [B,A] %q", alone.Panic, ab.Panic, ba.Panic)}}, pair, nil)
 				}
